@@ -1,7 +1,7 @@
 (* Properties/C13.v - Dump is transparent and faithful.
    Only statements, `exact`, and Print Assumptions.
    Model: Model/Dump.v, Model/DumpReader.v, Model/DumpStack.v. *)
-From ReqV Require Import Lib.Bytes Model.Dump Model.DumpReader Model.DumpStack
+From ReqV Require Import Lib.Bytes Model.Dump Model.DumpReader Model.DumpStack Model.C13Run
                          Proofs.DumpProofs Proofs.DumpStackProofs Proofs.DumpMoreProofs
                          Model.DumpSync Gen.DumpTables Proofs.DumpSyncProofs.
 
@@ -27,6 +27,21 @@ Print Assumptions C13_dump_transparent_h1_send.
 (* HTTP/1.1 response: header lines handed to the parser, how the block ended, the unread
    stream, the body reader's state and every Read result - for every stream, every buffer
    size, every body reader and every sequence of caller reads *)
+(* WHEN the bytes leave: with the Flush of the connection's bufio.Writer made explicit (any flush,
+   any writer, failures anywhere), the chunks of a streamed upload are flushed one by one exactly
+   as without dump - a producer that waits for the peer to have seen the previous part cannot be
+   stalled by turning the dump on *)
+Theorem C13_dump_transparent_h1_send_flush : forall St (flush : flushfn St) ds (w : wfn St) s q,
+  fst (h1_send_f flush ds w s q) = h1_send_plain_f flush w s q.
+Proof. exact @h1_send_f_transparent. Qed.
+Print Assumptions C13_dump_transparent_h1_send_flush.
+
+Theorem C13_h1_streamed_upload_flushes_every_chunk : forall ds hw chunks,
+  let sr := fst (h1_send_f count_flush ds count_w ([], 0) (mkH1Req hw (Some chunks) true false)) in
+  sr_failed sr = false /\ snd (sr_state sr) = length (filter nonempty chunks).
+Proof. exact h1_streamed_upload_flushes_every_chunk. Qed.
+Print Assumptions C13_h1_streamed_upload_flushes_every_chunk.
+
 Theorem C13_dump_transparent_h1_recv : forall St ds n stream (r : rfn St) b0 sizes,
   fst (h1_recv ds n stream r b0 sizes) = h1_recv_plain n stream r b0 sizes.
 Proof. exact @h1_recv_transparent. Qed.
@@ -221,11 +236,19 @@ Print Assumptions C13_resolve_matches_source.
    ones the model is written for *)
 Theorem C13_tables_match_source :
   gen_flags = expected_flags /\ gen_wrappers = expected_wrappers /\
-  gen_separators = expected_separators /\ gen_dumpto = expected_dumpto.
+  gen_separators = expected_separators /\ gen_dumpto = expected_dumpto /\
+  gen_bufio_asserts = expected_bufio_asserts.
 Proof. exact tables_match_source. Qed.
 Print Assumptions C13_tables_match_source.
 
 (* ---- the pinned code, refuted ---- *)
+(* a writeBody that asserts *bufio.Writer on the body-dump-wrapped writer (seeded change b-m2) *)
+Theorem C13_wrapped_chunk_flush_refuted :
+  sr_state (fst (h1_send_f_wrapped count_flush [(0, opts_all 7%N)] count_w ([], 0) stream_req)) <>
+  sr_state (h1_send_plain_f count_flush count_w ([], 0) stream_req).
+Proof. exact chunk_flush_wrapped_not_transparent. Qed.
+Print Assumptions C13_wrapped_chunk_flush_refuted.
+
 Theorem C13_pinned_never_started_writes_nothing : forall ops,
   ~ In AStart ops -> d_out (run_ops_pinned true ops) = [].
 Proof. exact pinned_never_started_writes_nothing. Qed.
